@@ -43,6 +43,7 @@ var also = map[string][]string{
 
 var enums = map[string]func(tier string, deadline time.Time) *run.EnumResult{
 	"C05": enumCanCall,
+	"C11": enumHandshake,
 	"C19": enumThrottle,
 }
 
